@@ -390,6 +390,9 @@ static void run(int tier, long idx, vf_result *r)
     static cs_scenario uni;
     int shp = 0;
     vf_errlog elog;
+    /* handles start at 3, 8 or 16, by case number */
+    static const int fillers[3] = { 0, 5, 13 };
+    cs_param_fillers = fillers[idx % 3];
 
     while (idx >= ubase[shp + 1])
 	++shp;
